@@ -137,5 +137,51 @@ class ScoreboardAdapter:
         raise Unavailable(f"{name} is not callable from Python (cdef) or has no builder")
 
 
-ADAPTERS = {"scoreboard": ScoreboardAdapter()}
-NATIVE_FNS = {}
+class LimitAdapter:
+    """Real scriptplan.core.limits.Limit objects. Inputs: interval start (seconds since epoch, may carry a time of
+    day), length in days, period, slot length, value, upper, counters, index."""
+
+    def random_input(self, target, variant, rng):
+        slot = rng.choice([3600, 1800, 900, 7200, 600])
+        period = rng.choice([86400, 86400, 604800, 604800, 604800, 3600 * 24 * 30])
+        # starts spread over year boundaries and 53-week ISO years, with and without a time of day
+        base = rng.choice([1735689600, 1766966400, 1767225600, 1798761600, 1609459200 - 3 * 86400, 1451606400,
+                           rng.randint(0, 2 * 10 ** 9) // 86400 * 86400])
+        start = base + rng.choice([0, 0, 13 * 3600, 9 * 3600 + 1800, 86399])
+        days = rng.choice([7, 14, 31, 400, 800])
+        horizon_slots = days * 86400 // slot
+        n = max(1, (days * 86400) // period + 1)
+        return {"istart": start, "days": days, "period": period, "slot": slot, "value": rng.randint(0, 5),
+                "upper": rng.random() < 0.8, "upper_arg": rng.random() < 0.8,
+                "counters": [rng.randint(0, 6) for _ in range(n)],
+                "index": rng.choice([rng.randint(0, horizon_slots), rng.randint(0, 3 * horizon_slots), rng.randint(-50, 50)]),
+                "dirty": rng.random() < 0.5}
+
+    def build(self, target, variant, inp):
+        from scriptplan.core.limits import Limit
+        name = target.split("::")[1]
+        start = to_dt(inp["istart"])
+        end = start + dt.timedelta(days=as_int(inp.get("days", 14)))
+        per = frac(inp["period"])
+        per = int(per) if per.denominator == 1 else float(per)
+        lim = Limit("limit", start, end, per, as_int(inp.get("value", 1)), as_bool(inp.get("upper", True)), None,
+                    as_int(inp["slot"]))
+        if inp.get("counters") is not None:
+            lim._scoreboard = [as_int(x) for x in inp["counters"]]
+        lim._dirty = as_bool(inp.get("dirty", True))
+        idx = as_int(inp["index"])
+        if name == "Limit._idx_to_sb_idx":
+            env = {"self": lim, "index": idx}
+            return env, (lambda: lim._idx_to_sb_idx(idx))
+        if name == "Limit.ok":
+            up = as_bool(inp.get("upper_arg", True))
+            env = {"self": lim, "index": idx, "upper": up, "resource": None, "p": lim._idx_to_sb_idx(idx)}
+            return env, (lambda: lim.ok(idx, up, None))
+        if name == "Limit.inc":
+            env = {"self": lim, "index": idx, "resource": None}
+            return env, (lambda: lim.inc(idx, None))
+        raise Unavailable(f"no native builder for {name}")
+
+
+ADAPTERS = {"scoreboard": ScoreboardAdapter(), "limit": LimitAdapter()}
+NATIVE_FNS = {"uf_sbidx": lambda lim, i: lim._idx_to_sb_idx(int(i))}
